@@ -159,5 +159,89 @@ Proof.
     destruct Hstep as (S1 & S2 & S3). rewrite <- S1. apply IHo; assumption. }
   apply Hgen; [exact Hst|constructor].
 Qed.
+
+Lemma psum_app a b : psum (a ++ b) = psum a + psum b.
+Proof. induction a as [|x r IHa]; [reflexivity|]. change (psum ((x :: r) ++ b)) with (rspan x + psum (r ++ b)). change (psum (x :: r)) with (rspan x + psum r). rewrite IHa. lia. Qed.
+
+Lemma psum_rev a : psum (rev a) = psum a.
+Proof. induction a as [|x r IHa]; [reflexivity|]. cbn [rev]. rewrite psum_app, IHa. change (psum [x]) with (rspan x + 0). change (psum (x :: r)) with (rspan x + psum r). lia. Qed.
+
+Lemma find_continuations_in tok toks decs c : find_continuations tok toks decs = Some c -> exists t, In t decs /\ td_dec t = WBreak c.
+Proof.
+  unfold find_continuations.
+  destruct ((fix pos (l : list N) (k0 : nat) : option nat := match l with [] => None | x :: r => if x =? tok then Some k0 else pos r (S k0) end) toks 0%nat) as [depth|]; [|discriminate].
+  revert depth. induction decs as [|t r IHd]; intros depth H; [destruct depth; discriminate|].
+  destruct depth as [|n]; cbn [skipn] in H.
+  - destruct (td_dec t) as [c'|] eqn:Et.
+    + injection H as <-. exists t. split; [left; reflexivity|exact Et].
+    + destruct (IHd O H) as (t' & Hin & Ht'). exists t'. split; [right; exact Hin|exact Ht'].
+  - destruct (IHd n H) as (t' & Hin & Ht'). exists t'. split; [right; exact Hin|exact Ht'].
+Qed.
+
+(* the solve call under consideration: its whitespace, its offset bound M, its budget *)
+Variable ws : N * N.
+Variable M : N.
+Hypothesis Hws : ws_pre (S k) ws.
+Hypothesis HM : Wb <= M.
+Hypothesis Hbud : M + m * psum (lv_recs lv) <= w_max W.
+
+Definition NB (nd : node) : Prop :=
+  n_ws nd = ws
+  /\ (exists done, rev done ++ n_rest nd = lv_recs lv /\ last_line_length_of nd <= M + m * psum done)
+  /\ (forall t c, In t (n_decs nd) -> td_dec t = WBreak c -> c <= SW).
+
+Lemma NB_fits nd : NB nd -> (w_max W <? last_line_length_of nd) = false.
+Proof.
+  intros (_ & (done & Hsplit & Hl) & _). apply N.ltb_ge.
+  assert (psum done <= psum (lv_recs lv)) by (rewrite <- Hsplit, psum_app, psum_rev; lia). nia.
+Qed.
+
+Notation pot := (potential W lvs cs lv).
+Notation poti := (potential_inf W lvs csi lv).
+
+Lemma potential_unc st nd b : cache_bd st -> NB nd ->
+  pot st nd b = poti st nd b /\ cache_bd (fst (pot st nd b)) /\ Forall NB (snd (pot st nd b)).
+Proof.
+  intros Hst (Hnws & (done & Hsplit & Hl) & Hcs'). unfold potential, potential_inf.
+  destruct (n_rest nd) as [|r rest] eqn:Hrest; [split; [reflexivity|split; [exact Hst|constructor]]|].
+  assert (Hr : In r (lv_recs lv)) by (rewrite <- Hsplit; apply in_or_app; right; left; reflexivity).
+  destruct (Hrec i lv r Hi Hr) as (Hsl & Hml & Hsw).
+  destruct Hws as (Hw1 & Hw2).
+  set (d := update_contexts (lv_type lv) (tr_win r) (tr_ty r) (tr_stk r) (n_nli nd) b (n_data nd)).
+  set (cc := get_continuation_count (tr_stk r) d (n_nli nd)).
+  assert (Hcc : cc <= SW) by (pose proof (get_continuation_count_le (tr_stk r) d (n_nli nd)); subst cc; lia).
+  set (dec := if b then WBreak cc else WContinue).
+  set (tll := token_line_length' W (n_ws nd) (n_decs nd) dec r).
+  assert (Hdone : psum (r :: done) <= psum (lv_recs lv)).
+  { rewrite <- Hsplit, psum_app, psum_rev. cbn [psum fold_right]. fold (psum rest). fold (psum done). lia. }
+  assert (Htll : tll <= M + m * (psum done + 1)).
+  { subst tll. unfold token_line_length'. destruct (tr_ml r) as [x|]; [specialize (Hml x eq_refl); nia|].
+    subst dec. destruct b.
+    - rewrite Hnws. pose proof (lws_len_mono W (fst ws) (snd ws + cc) IB CB ltac:(lia) ltac:(lia)) as Hmono. unfold Wb in HM. nia.
+    - assert (Hprev : match n_decs nd with
+                      | t :: _ => match last_child_line_len (td_kids t) with Some l0 => l0 | None => td_lll t end
+                      | [] => 0
+                      end <= last_line_length_of nd).
+      { unfold last_line_length_of. destruct (n_decs nd) as [|t ?]; [lia|]. destruct (last_child_line_len (td_kids t)); lia. }
+      nia. }
+  assert (Hkq : M + m * (psum done + 1) + m * kq r = M + m * psum (r :: done)).
+  { cbn [psum fold_right]. fold (psum done). unfold rspan, kq. nia. }
+  assert (Hpen : decision_penalty W (lv_type lv) r (n_nli nd) b tll = decision_penalty_inf lv r (n_nli nd) b).
+  { unfold decision_penalty, decision_penalty_inf. destruct b; [reflexivity|].
+    replace (w_max W <? tll) with false; [reflexivity|]. symmetry. apply N.ltb_ge. nia. }
+  rewrite Hpen. rewrite (proj1 (Hwf i lv Hi)).
+  destruct (cls_unc st r (lv_gtoks lv) (n_nli nd) (n_ws nd) (n_decs nd) d (n_nli nd) tll cc (M + m * (psum done + 1)) Hr
+              ltac:(rewrite Hnws; split; assumption) Hcc
+              ltac:(intros c E; apply find_continuations_in in E; destruct E as (t & Hin & Ht); exact (Hcs' t c Hin Ht))
+              Htll ltac:(nia) ltac:(nia) Hst) as (E1 & E2 & E3).
+  rewrite <- E1. destruct (child_lines_solutions W lvs cs st i r _ _ _ _ _ _ _ _) as [st1 sols]. cbn [fst snd] in *.
+  split; [reflexivity|]. split; [exact E2|].
+  apply Forall_forall. intros n Hn. apply in_map_iff in Hn. destruct Hn as (kids & <- & Hk).
+  rewrite Forall_forall in E3. specialize (E3 kids Hk).
+  split; [exact Hnws|]. split.
+  - exists (r :: done). cbn [n_rest rev]. split; [rewrite <- app_assoc; cbn [app]; exact Hsplit|].
+    unfold last_line_length_of. cbn [n_decs td_lll td_kids]. fold (kids_last kids). rewrite <- Hkq. nia.
+  - intros t c [<-|Hin] Ht; [|exact (Hcs' t c Hin Ht)]. cbn [td_dec] in Ht. subst dec. destruct b; [injection Ht as <-; exact Hcc|discriminate].
+Qed.
 End Child.
 End Unc.
